@@ -99,6 +99,24 @@ class Case:
         return [self.data.decode("latin-1"), list(self.flags), sorted(self.env.items()), self.user_cfg,
                 self.proj_cfg, self.env_cfg, self.fault, self.io, self.cwd_gone]
 
+    def to_json(self):
+        """Everything needed to run the case again.  Scratch paths inside the data are kept as a
+        placeholder so that a replay can allocate its own scratch tree."""
+        return {"data_latin1": self.data.decode("latin-1"), "label": self.label, "flags": list(self.flags),
+                "env": self.env, "user_cfg": self.user_cfg, "proj_cfg": self.proj_cfg, "env_cfg": self.env_cfg,
+                "fault": list(self.fault) if self.fault else None, "io": self.io, "cwd_gone": self.cwd_gone}
+
+    @staticmethod
+    def from_json(d, remap=None):
+        data = d["data_latin1"].encode("latin-1")
+        if remap:
+            for old, new in remap.items():
+                data = data.replace(old.encode(), new.encode())
+        return Case(data, label=d.get("label", "replay"), flags=tuple(d.get("flags", ())), env=d.get("env", {}),
+                    user_cfg=d.get("user_cfg"), proj_cfg=d.get("proj_cfg"), env_cfg=d.get("env_cfg"),
+                    fault=tuple(d["fault"]) if d.get("fault") else None, io=d.get("io", "default"),
+                    cwd_gone=d.get("cwd_gone", False))
+
 
 def child_env(sc: Scratch, c: Case) -> dict:
     env = {"HOME": sc.home(c.user_cfg), "PATH": "/usr/bin:/bin", "PYTHONHASHSEED": "0"}
@@ -284,6 +302,62 @@ def jsx(v):
     raise TypeError(type(v))
 
 
+def enc_iter(x) -> str:
+    """lib.enc without recursion (CPython 3.12 has a fixed C-recursion limit that nested
+    join/generator calls hit at a JSON depth of a few hundred)."""
+    out = []
+    stack = [x]
+    CLOSE = object()
+    while stack:
+        v = stack.pop()
+        if v is CLOSE:
+            out.append(") ")
+        elif isinstance(v, bool):
+            out.append("a49 " if v else "a48 ")
+        elif isinstance(v, str):
+            out.append("a" + ",".join([str(ord(ch)) for ch in v]) + " ")
+        elif v is None:
+            out.append("() ")
+        elif isinstance(v, (list, tuple)):
+            out.append("(")
+            stack.append(CLOSE)
+            for y in reversed(v):
+                stack.append(y)
+        else:
+            raise TypeError(type(v))
+    return "".join(out).replace(" )", ")").strip()
+
+
+def call_model(model, request, oracles, record=False):
+    """lib.Model.call with the request encoded iteratively."""
+    text = enc_iter(request)
+    model.last_request = text
+    if record:
+        model.transcript = []
+    p = model.p
+    p.stdin.write(text + "\n")
+    p.stdin.flush()
+    while True:
+        line = p.stdout.readline()
+        if not line:
+            raise lib.ModelError("model process died")
+        line = line.rstrip("\n")
+        if line.startswith("?"):
+            qv = lib.dec(line[1:])
+            name, args = qv[0], qv[1:]
+            if name not in oracles:
+                raise lib.ModelError(f"no oracle for {name}")
+            ans = lib.enc(oracles[name](*args))
+            if record:
+                model.transcript.append((line[1:], ans))
+            p.stdin.write(ans + "\n")
+            p.stdin.flush()
+        elif line.startswith("="):
+            return lib.dec(line[1:])
+        else:
+            raise lib.ModelError(f"model error: {line}")
+
+
 def unjsx(x):
     tag = x[0]
     if tag == "null":
@@ -369,7 +443,12 @@ class HookModel:
         def resolve(s):
             def f():
                 old = os.getcwd()
-                os.chdir(proc_cwd)
+                if c.cwd_gone:
+                    gone = tempfile.mkdtemp(prefix="gone-", dir=sc.root)
+                    os.chdir(gone)
+                    os.rmdir(gone)
+                else:
+                    os.chdir(proc_cwd)
                 try:
                     return str(Path(s).resolve())
                 finally:
@@ -386,20 +465,7 @@ class HookModel:
                 return raise_injected()
 
             def f():
-                old_uc, old_env = cf.USER_CONFIG, os.environ.get("DIPPY_CONFIG")
-                cf.USER_CONFIG = Path(sc.home(c.user_cfg)) / ".dippy" / "config"
-                if c.env_cfg is not None:
-                    os.environ["DIPPY_CONFIG"] = c.env_cfg
-                else:
-                    os.environ.pop("DIPPY_CONFIG", None)
-                try:
-                    return cf.load_config(Path(cwd))
-                finally:
-                    cf.USER_CONFIG = old_uc
-                    if old_env is None:
-                        os.environ.pop("DIPPY_CONFIG", None)
-                    else:
-                        os.environ["DIPPY_CONFIG"] = old_env
+                return real_load_config(sc, c, cwd)
 
             def conv(cfg):
                 cid = f"cfg{len(self.cfgs)}"
@@ -467,14 +533,36 @@ class HookModel:
     def main(self, c: Case, record=False):
         """-> (items, exit, traceback) ; items = [('J', value) | ('T', text)]"""
         kind, v = read_stdin(c)
-        stdin = ["ok", jsx(v)] if kind == "ok" else ["raise", v, ""]
+        limit0 = sys.getrecursionlimit()
+        sys.setrecursionlimit(50000)
+        try:
+            stdin = ["ok", jsx(v)] if kind == "ok" else ["raise", v, ""]
+        finally:
+            sys.setrecursionlimit(limit0)
         argv = ["dippy-hook", *c.flags]
         envs = [lib.opt(c.env.get(f"DIPPY_{m.upper()}")) for m in MODES]
         req = ["hook_main", ["ok", []], argv, *envs, stdin]
         old = os.getcwd()
+        # deeply nested JSON values need a deeper Python stack to be ENCODED for the model; the real
+        # functions answering the oracle queries keep running under the interpreter's own limit
+        limit = sys.getrecursionlimit()
+
+        def limited(f):
+            def w(*a):
+                sys.setrecursionlimit(limit)
+                try:
+                    return f(*a)
+                finally:
+                    sys.setrecursionlimit(50000)
+            return w
+
         try:
-            r = self.model.call(req, self.oracles(c), record=record)
+            orcs = {k: limited(f) for k, f in self.oracles(c).items()}
+            sys.setrecursionlimit(50000)
+            r = call_model(self.model, req, orcs, record=record)
+            self.last_raw = r
         finally:
+            sys.setrecursionlimit(limit)
             os.chdir(old)
         items = []
         for it in r[0]:
@@ -500,8 +588,40 @@ def canon_items(items, mode_hint=None):
     return out
 
 
-def describe(c: Case):
-    return {"stdin": c.data[:2000].decode("utf-8", "backslashreplace"), "stdin_len": len(c.data),
+def real_load_config(sc: Scratch, c: Case, cwd: str):
+    """load_config as the child process sees it (same HOME, same DIPPY_CONFIG), in-process."""
+    from dippy.core import config as cf
+
+    old_uc, old_env = cf.USER_CONFIG, os.environ.get("DIPPY_CONFIG")
+    cf.USER_CONFIG = Path(sc.home(c.user_cfg)) / ".dippy" / "config"
+    if c.env_cfg is not None:
+        os.environ["DIPPY_CONFIG"] = c.env_cfg
+    else:
+        os.environ.pop("DIPPY_CONFIG", None)
+    try:
+        return cf.load_config(Path(cwd))
+    finally:
+        cf.USER_CONFIG = old_uc
+        if old_env is None:
+            os.environ.pop("DIPPY_CONFIG", None)
+        else:
+            os.environ["DIPPY_CONFIG"] = old_env
+
+
+def replay_case(sc: Scratch, replay: dict) -> Case:
+    """Rebuild the case of a replay file in a fresh scratch tree."""
+    d = replay["case"]
+    remap = {}
+    if replay.get("proj_dir"):
+        remap[replay["proj_dir"]] = sc.proj(d.get("proj_cfg"))
+    if replay.get("home"):
+        remap[replay["home"]] = sc.home(d.get("user_cfg"))
+    return Case.from_json(d, remap)
+
+
+def describe(c: Case, sc: Scratch | None = None):
+    loc = {"proj_dir": sc.proj(c.proj_cfg), "home": sc.home(c.user_cfg)} if sc else {}
+    return {"case": c.to_json(), **loc, "stdin": c.data[:2000].decode("utf-8", "backslashreplace"), "stdin_len": len(c.data),
             "flags": list(c.flags), "env": c.env,
             "user_config": c.user_cfg, "project_config": c.proj_cfg, "DIPPY_CONFIG": c.env_cfg, "fault": c.fault,
             "io": c.io, "cwd_gone": c.cwd_gone, "label": c.label,
